@@ -391,6 +391,7 @@ type kcCtx struct {
 	h       *harness
 	backend string
 	layer   string
+	class   string // one-creator | retry | concurrent-creators
 	script  string
 	trace   func() []string
 }
@@ -417,9 +418,12 @@ func (c kcCtx) judgeBackend(st spi.Storage, name string, pubs []crypto.PublicKey
 		}
 		ok++
 		r.Count("creation_successes", 1)
-		if heldPub == nil || pubFP(pubs[i]) != pubFP(heldPub) {
-			r.Violation("C03/agreement/key-creation/backend.NewPrivateKey", fmt.Sprintf("NewPrivateKey(%s back end) reported success and handed out a public key that is not the public half of the private key held under that key name (%s)", c.backend, c.script),
-				c.witness(name, map[string]any{"creator": i, "creators": len(pubs), "something_held_under_the_name": heldPub != nil}))
+		if heldPub == nil {
+			// success reported while the store holds nothing under the name: nothing can be signed with it, the statement is silent
+			r.Unspecified("key-creation/created-key-not-held/backend.NewPrivateKey")
+		} else if pubFP(pubs[i]) != pubFP(heldPub) {
+			r.Violation("C03/agreement/key-creation/backend.NewPrivateKey/"+c.class, fmt.Sprintf("NewPrivateKey(%s back end) reported success and handed out a public key that is not the public half of the private key held under that key name (%s)", c.backend, c.script),
+				c.witness(name, map[string]any{"creator": i, "creators": len(pubs)}))
 		} else {
 			r.Count("creation_successes_confirmed", 1)
 		}
@@ -445,13 +449,14 @@ func (c kcCtx) judgeBackend(st spi.Storage, name string, pubs []crypto.PublicKey
 			ec, isEC := pubs[i].(*ecdsa.PublicKey)
 			if !isEC || !ecdsa.VerifyASN1(ec, kcDigest[:], sig) {
 				usedOK = false
-				r.Violation("C03/agreement/key-creation/backend.GetPrivateKey", fmt.Sprintf("a signature by the key the %s back end returns for a key name does not verify with the public key NewPrivateKey handed out for that name (%s)", c.backend, c.script),
+				r.Violation("C03/agreement/key-creation/backend.GetPrivateKey/"+c.class, fmt.Sprintf("a signature by the key the %s back end returns for a key name does not verify with the public key NewPrivateKey handed out for that name (%s)", c.backend, c.script),
 					c.witness(name, map[string]any{"creator": i, "creators": len(pubs)}))
 			}
 		}
 		r.Count("creation_uses", 1)
 	}
 	outcome := fmt.Sprintf("ok=%d/%d,held=%v", ok, len(pubs), heldPub != nil)
+	r.Distinct("creation_store_behaviours", c.backend+"/"+c.script)
 	r.Distinct("creation_outcomes", c.layer+"/"+c.backend+"/"+outcome)
 	r.Case(strings.Join([]string{"kc", c.layer, c.backend, c.script, outcome}, "/"), usedOK)
 }
@@ -481,9 +486,12 @@ func (c kcCtx) judgeKeyStore(ks nutsCrypto.KeyStore, kid, name string, published
 			pubKey.ct, _ = nutsCrypto.EciesEncrypt(ec, lcPlain)
 			cands = append(cands, pubKey)
 		}
-		if heldKey == nil || pubKey == nil || heldKey.fp != pubKey.fp {
+		if heldKey == nil {
+			// success reported while the store holds nothing under the name: nothing can be signed with it, the statement is silent
+			r.Unspecified("key-creation/created-key-not-held/keystore.New")
+		} else if pubKey == nil || heldKey.fp != pubKey.fp {
 			r.Violation("C03/agreement/key-creation/keystore.New", fmt.Sprintf("KeyStore.New (%s back end) reported success and handed out a public key that is not the public half of the private key held under the key name of its key reference (%s)", c.backend, c.script),
-				c.witness(name, map[string]any{"kid": kid, "something_held_under_the_name": heldKey != nil}))
+				c.witness(name, map[string]any{"kid": kid}))
 		} else {
 			r.Count("creation_successes_confirmed", 1)
 		}
@@ -560,6 +568,7 @@ func (c kcCtx) judgeKeyStore(ks nutsCrypto.KeyStore, kid, name string, published
 	if !h.r.Thorough() && newErr != nil {
 		uses = uses[:3] // quick: a key id whose creation failed is tried through Resolve and two signing entry points
 	}
+	r.Distinct("creation_store_behaviours", c.backend+"/"+c.script)
 	for _, u := range uses {
 		var ok bool
 		var from []string
@@ -651,18 +660,19 @@ func (h *harness) phaseKeyCreation() {
 	for _, sc := range kcScripts() {
 		sc := sc
 		name := uuid.NewString()
+		retryIdx := rnd.Intn(len(kcScripts())) // drawn for every behaviour, so that the case list does not depend on outcomes
 		st.arm(name, &sc)
-		c := kcCtx{h: h, backend: "external", layer: "backend", script: sc.id(), trace: func() []string { st.mu.Lock(); defer st.mu.Unlock(); return append([]string{}, sc.trace...) }}
+		c := kcCtx{h: h, backend: "external", layer: "backend", class: "one-creator", script: sc.id(), trace: func() []string { st.mu.Lock(); defer st.mu.Unlock(); return append([]string{}, sc.trace...) }}
 		pub, err := newCall(ext, name)
 		st.disarm(&sc)
 		r.Count("creation_attempts", 1)
 		c.judgeBackend(ext, name, []crypto.PublicKey{pub}, []error{err}, heldPub(name))
 		if err != nil {
 			all := kcScripts()
-			retry := all[rnd.Intn(len(all))]
+			retry := all[retryIdx]
 			retry.pre = "absent" // whatever the first attempt left behind stays as it is
 			st.arm(name, &retry)
-			c2 := kcCtx{h: h, backend: "external", layer: "backend", script: "retry:" + retry.id(), trace: func() []string {
+			c2 := kcCtx{h: h, backend: "external", layer: "backend", class: "retry", script: "retry:" + retry.id(), trace: func() []string {
 				st.mu.Lock()
 				defer st.mu.Unlock()
 				return append(append([]string{}, sc.trace...), retry.trace...)
@@ -741,7 +751,7 @@ func (h *harness) phaseKeyCreation() {
 		}
 		r.Count("creation_attempts", n)
 		r.Count("creation_races", 1)
-		c := kcCtx{h: h, backend: "external", layer: "backend", script: fmt.Sprintf("%s,creators=%d", sc.id(), n), trace: func() []string { st.mu.Lock(); defer st.mu.Unlock(); return append([]string{}, sc.trace...) }}
+		c := kcCtx{h: h, backend: "external", layer: "backend", class: "concurrent-creators", script: fmt.Sprintf("%s,creators=%d", sc.id(), n), trace: func() []string { st.mu.Lock(); defer st.mu.Unlock(); return append([]string{}, sc.trace...) }}
 		c.judgeBackend(ext, name, pubs, errs, heldPub(name))
 	}
 
@@ -777,7 +787,7 @@ func (h *harness) phaseKeyCreation() {
 		}
 		r.Count("creation_attempts", n)
 		r.Count("creation_races", 1)
-		c := kcCtx{h: h, backend: "fs", layer: "backend", script: fmt.Sprintf("pre=%s,creators=%d,unsteered", pre, n)}
+		c := kcCtx{h: h, backend: "fs", layer: "backend", class: "concurrent-creators", script: fmt.Sprintf("pre=%s,creators=%d,unsteered", pre, n)}
 		c.judgeBackend(fsw, name, pubs, errs, held)
 	}
 
@@ -823,7 +833,7 @@ func (h *harness) phaseKeyCreation() {
 			name = sc.name
 		}
 		r.Count("creation_attempts", 1)
-		c := kcCtx{h: h, backend: "external", layer: "keystore", script: sc.id(), trace: func() []string { st.mu.Lock(); defer st.mu.Unlock(); return append([]string{}, sc.trace...) }}
+		c := kcCtx{h: h, backend: "external", layer: "keystore", class: "one-creator", script: sc.id(), trace: func() []string { st.mu.Lock(); defer st.mu.Unlock(); return append([]string{}, sc.trace...) }}
 		c.judgeKeyStore(ks, kid, name, pub, nerr, st.held(name))
 	}
 
